@@ -38,13 +38,13 @@ class DcfData(MoveDataMixin):
 
         ks = [traj.kz, traj.ky, traj.kx]
         spatial_dims = (-3, -2, -1)
-        ks_needing_voronoi = set()
+        ks_needing_voronoi: set[int] = set()
+        dims_of_single_k: dict[int, list[int]] = {}
         for dim in spatial_dims:
-            non_singleton_ks = [ax for ax in ks if ax.shape[dim] != 1]
+            non_singleton_ks = [i for i, ax in enumerate(ks) if ax.shape[dim] != 1]
             if len(non_singleton_ks) == 1:
                 # Found a dimension with only one non-singleton axes in ks
-                # --> Can handle this as a 1D trajectory
-                dcfs.append(smap(dcf_1d, non_singleton_ks.pop(), (dim,)))
+                dims_of_single_k.setdefault(non_singleton_ks[0], []).append(dim)
             elif len(non_singleton_ks) > 0:
                 # More than one of the ks is non-singleton
                 # --> A full dimension needing voronoi
@@ -54,9 +54,17 @@ class DcfData(MoveDataMixin):
                 # --> Don't need to do anything
                 pass
 
+        for i, dims in dims_of_single_k.items():
+            if i in ks_needing_voronoi:
+                # already part of the joint tessellation, which runs over all dimensions of its ks
+                continue
+            # --> Can handle this as a 1D trajectory (over all dimensions along which it is the only one varying)
+            dcfs.append(smap(lambda k: dcf_1d(k.flatten()).reshape(k.shape), ks[i], tuple(dims)))
+
         if ks_needing_voronoi:
             # Handle full dimensions needing voronoi
-            dcfs.append(smap(dcf_2d3d_voronoi, torch.stack(torch.broadcast_tensors(*ks_needing_voronoi), -4), 4))
+            joint = [ks[i] for i in sorted(ks_needing_voronoi)]
+            dcfs.append(smap(dcf_2d3d_voronoi, torch.stack(torch.broadcast_tensors(*joint), -4), 4))
 
         if dcfs:
             # Multiply all dcfs together
